@@ -2,6 +2,7 @@ package main
 
 import (
 	"fmt"
+	"os"
 	"go/token"
 	"go/types"
 	"strings"
@@ -230,8 +231,14 @@ type EnumOpts struct {
 	NoPrune bool
 	// NoLoopExit ends a path at the first back edge instead of leaving inner loops.
 	NoLoopExit bool
-	// Inline enables the inlining of module helpers (World.inlinable).
-	Inline bool
+	// Inline enables the inlining of module helpers (World.inlinable); Opaque keeps
+	// individual callees as plain calls (the functions a rule refers to by name).
+	Inline   bool
+	NoInline bool
+	Opaque   func(*ssa.Function) bool
+	// ForceInline lets a rule splice in anchors it wants to see through (they are kept as
+	// plain calls by default).
+	ForceInline func(*ssa.Function) bool
 }
 
 type EnumResult struct {
@@ -324,6 +331,16 @@ func canonAtom(op, l, r string, val bool) (Atom, bool) {
 // value the callee returns on that path. A refactoring that extracts a part of a function
 // into a helper therefore yields the same literal/effect streams as before.
 func (w *World) EnumPaths(fn *ssa.Function, o EnumOpts) EnumResult {
+	res := w.enumPaths(fn, o)
+	if res.Truncated && o.Inline && !o.NoInline {
+		// too many paths with helpers spliced in: fall back to the function on its own
+		o.NoInline = true
+		return w.enumPaths(fn, o)
+	}
+	return res
+}
+
+func (w *World) enumPaths(fn *ssa.Function, o EnumOpts) EnumResult {
 	if o.MaxPaths == 0 {
 		o.MaxPaths = 4096
 	}
@@ -565,8 +582,20 @@ func (w *World) EnumPaths(fn *ssa.Function, o EnumOpts) EnumResult {
 					nf.order = append(nf.order, 'E')
 				}
 				// inline a small module helper
-				if call, ok := in.(*ssa.Call); ok && !exiting && o.Inline && depth < 2 {
-					if callee := c.StaticCallee(); callee != nil && !nf.inl[callee] && callee != fn && w.inlinable(callee) {
+				if call, ok := in.(*ssa.Call); ok && !exiting && o.Inline && !o.NoInline && depth < 3 {
+					sameBinding := func(callee *ssa.Function) bool {
+						use(&nf)
+						for i, prm := range callee.Params {
+							if i >= len(c.Args) || nf.param[prm] != w.Resolve(c.Args[i]) {
+								if os.Getenv("PRUNNERLINT_DBG") != "" {
+									fmt.Fprintf(os.Stderr, "rebinding %s param %d: had %v (%T), now %v (%T)\n", callee.Name(), i, nf.param[prm], nf.param[prm], w.Resolve(c.Args[i]), w.Resolve(c.Args[i]))
+								}
+								return false
+							}
+						}
+						return true
+					}
+					if callee := c.StaticCallee(); callee != nil && (!nf.inl[callee] || sameBinding(callee)) && callee != fn && (w.inlinable(callee) || o.ForceInline != nil && o.ForceInline(callee) && w.inlinableShape(callee)) && (o.Opaque == nil || !o.Opaque(callee)) {
 						// bind the parameters to the caller's argument values (resolved in the caller's context)
 						g := nf
 						g.param = make(map[*ssa.Parameter]ssa.Value, len(nf.param)+len(callee.Params))
@@ -578,6 +607,7 @@ func (w *World) EnumPaths(fn *ssa.Function, o EnumOpts) EnumResult {
 							g.inl[k2] = v
 						}
 						g.inl[callee] = true
+						use(&nf) // (the inlinability test may have enumerated the callee and reset the environment)
 						for i, prm := range callee.Params {
 							if i < len(c.Args) {
 								g.param[prm] = w.Resolve(c.Args[i])
@@ -659,52 +689,62 @@ func (w *World) EnumPaths(fn *ssa.Function, o EnumOpts) EnumResult {
 	return res
 }
 
-// inlinable: a static callee whose body EnumPaths splices into the caller's paths. Only
-// source functions of the module that are not anchors of a rule (World.noInline: the role
-// functions), that take a pointer to a module struct (receiver or parameter: they can touch
-// the shared state a rule reasons about), have no defer/recover and are small.
+// inlinable: a static callee whose body EnumPaths splices into the caller's paths: a source
+// function of the module that is not an anchor of a rule (World.noInline: the role functions),
+// is not a closure, has no defer/recover/select/go, is small (≤ 30 blocks) and has few
+// paths of its own (≤ 16, so that splicing does not blow the enumeration up).
 func (w *World) inlinable(f *ssa.Function) bool {
+	if f == nil || w.noInline != nil && w.noInline(f) {
+		return false
+	}
+	return w.inlinableShape(f)
+}
+
+// inlinableShape is inlinable without the anchor test.
+func (w *World) inlinableShape(f *ssa.Function) bool {
 	if v, ok := w.inlMemo[f]; ok {
 		return v
 	}
 	if w.inlMemo == nil {
 		w.inlMemo = map[*ssa.Function]bool{}
 	}
+	w.inlMemo[f] = false // recursion guard
 	ok := func() bool {
-		if f == nil || f.Blocks == nil || f.Synthetic != "" || !w.InModule(f) || len(f.Blocks) > 24 {
+		if f == nil || f.Blocks == nil || f.Synthetic != "" || !w.InModule(f) || len(f.Blocks) > 30 {
 			return false
 		}
-		if w.noInline != nil && w.noInline(f) {
-			return false
-		}
-		if f.Signature.Variadic() || len(f.FreeVars) > 0 {
-			return false
-		}
-		takesState := false
-		for _, p := range f.Params {
-			if pt, ok := p.Type().Underlying().(*types.Pointer); ok {
-				if n, ok := pt.Elem().(*types.Named); ok && n.Obj().Pkg() != nil && w.InModulePkg(n.Obj().Pkg()) {
-					if _, ok := n.Underlying().(*types.Struct); ok {
-						takesState = true
-					}
-				}
-			}
-		}
-		if !takesState {
+		if len(f.FreeVars) > 0 {
 			return false
 		}
 		for _, b := range f.Blocks {
 			for _, in := range b.Instrs {
 				switch in.(type) {
-				case *ssa.Defer, *ssa.RunDefers, *ssa.Select:
+				case *ssa.Defer, *ssa.RunDefers, *ssa.Select, *ssa.Go:
 					return false
 				}
 			}
 		}
-		return true
+		pr := w.enumPaths(f, EnumOpts{NoInline: true, MaxPaths: 17})
+		return !pr.Truncated && len(pr.Paths) <= 16
 	}()
 	w.inlMemo[f] = ok
 	return ok
+}
+
+// statelessCallee: f takes no pointer to a module struct (receiver or parameter) — it
+// cannot touch the shared state the scheduling rules reason about. Used as EnumOpts.Opaque
+// by rules that refer to such helpers (constructors, converters) by name.
+func (w *World) statelessCallee(f *ssa.Function) bool {
+	for _, p := range f.Params {
+		if pt, ok := p.Type().Underlying().(*types.Pointer); ok {
+			if n, ok := pt.Elem().(*types.Named); ok && n.Obj().Pkg() != nil && w.InModulePkg(n.Obj().Pkg()) {
+				if _, ok := n.Underlying().(*types.Struct); ok {
+					return false
+				}
+			}
+		}
+	}
+	return true
 }
 
 // pureValue: v is computed from memory loads, constants and operators only — no call whose
@@ -803,6 +843,11 @@ func (w *World) condAtom(v ssa.Value, depth int) (op, l, r string, neg bool, kon
 	case *ssa.BinOp:
 		switch x.Op.String() {
 		case "<", "<=", ">", ">=", "==", "!=":
+			// both operands resolve to the nil constant (e.g. a spliced helper returned nil)
+			if (x.Op.String() == "==" || x.Op.String() == "!=") && isNilConst(w.Resolve(x.X)) && isNilConst(w.Resolve(x.Y)) {
+				b := x.Op.String() == "=="
+				return "", "", "", false, &b
+			}
 			return x.Op.String(), w.AP(x.X), w.AP(x.Y), false, nil
 		}
 	}
